@@ -1181,6 +1181,9 @@ class C05(LinesBase):
         if i.startswith("panic") or i == "abort":
             ev.judge = "panic"
             return ev
+        if ii[-1].startswith("adaptor-differ"):
+            ev.judge = "count()/last()/size_hint() of the section iterator disagree with repeated next(): " + ii[-1]
+            return ev
         # up to and including the first error
         def upto(xs):
             out = []
@@ -1253,7 +1256,9 @@ class C07(LinesBase):
             obs = lambda xs: (xs[-1], len(xs) - 1 <= n + 1)
             if obs(ii) != obs(mm):
                 ev.corr = "impl %r vs model %r" % (i[:300], m[:300])
-            if ii[-1] != "done":
+            if ii[-1].startswith("adaptor-differ"):
+                ev.judge = "count()/last()/size_hint() of the section iterator disagree with repeated next(): " + ii[-1]
+            elif ii[-1] != "done":
                 ev.judge = "section iterator did not end within %d calls (%d lines): ...%s" % (cap, n, " ; ".join(ii[-3:]))
             elif len(ii) - 1 > n + 1:
                 ev.judge = "section iterator yielded %d items for %d lines" % (len(ii) - 1, n)
@@ -1280,7 +1285,9 @@ class C07(LinesBase):
             plain = [x for x in i.split(" ; ") if x.startswith("plain=")]
             if plain and plain[0] != "plain=ok":
                 _, cnt, how = plain[0].split(":")
-                if how == "endless" or int(cnt) > n + 1:
+                if how.startswith("adaptor"):
+                    ev.judge = "count()/last()/nth()/size_hint of the step-through disagree with repeated next(): " + how
+                elif how == "endless" or int(cnt) > n + 1:
                     ev.judge = "section.stepthrough() (the API without records) yielded %s items for %d records and %s" % (cnt, n, "did not end" if how == "endless" else "ended")
                 else:
                     ev.corr = "stepthrough() and stepthrough_with_data() disagree: " + plain[0]
